@@ -16,6 +16,7 @@ import (
 	"encoding/json"
 	"fmt"
 	"io"
+	"os"
 	"runtime/debug"
 	"testing"
 	"testing/synctest"
@@ -49,12 +50,18 @@ const (
 	holderLimit = maxHolders
 )
 
+// probeUnreferenced enables the opt-in probes of set-size on a file whose
+// last reference is gone (see FINDINGS.md). Off by default: nothing
+// documents a result for such a call, so the default generator refuses it.
+var probeUnreferenced = os.Getenv("VERIF_C16_UNREFERENCED_SETSIZE") == "1"
+
 // failure is the panic value used to carry an oracle failure out of the
 // synctest bubble.
 type failure string
 
 type step struct {
 	Op  string `json:"op"`
+	F   int    `json:"f,omitempty"` // file number (build-directory sub-check only)
 	ID  int    `json:"id,omitempty"`
 	Off int    `json:"off,omitempty"`
 	N   int    `json:"n,omitempty"`
@@ -121,18 +128,27 @@ type holder struct {
 	checked     bool
 }
 
-type sim struct {
+// shared is what all file models of one case have in common.
+type shared struct {
 	rt     *rapid.T
 	rec    *simkit.Recorder
 	script []step
+	labels map[string]bool
+	nextID int
+	wrap   string
+	fns    []digest.Function
+}
 
-	wrap string
-	pool *fakePool
-	na   *fakeNamedAttributes
+// sim is the model of ONE file plus the machinery to drive it.
+type sim struct {
+	*shared
+	tag int // file number stamped into script steps
+
+	pf   *poolFile
+	na   *fakeNamedAttributes // nil: named attributes not instrumented
 	el   *fakeErrorLogger
 	nfs  *virtual.NFSStatefulHandleAllocator
-	leaf virtual.LinkableLeaf
-	fns  []digest.Function
+	leaf virtual.Leaf
 
 	// Reference model.
 	links, openR, openW, frozen int
@@ -144,11 +160,9 @@ type sim struct {
 
 	holders []*holder
 	pending []*mutator
-	nextID  int
 
 	digestSeen         bool // some digest was computed for the current or an earlier content
 	changedSinceDigest bool
-	labels             map[string]bool
 }
 
 func (s *sim) failf(format string, a ...any) {
@@ -159,6 +173,7 @@ func (s *sim) failf(format string, a ...any) {
 func (s *sim) label(l string) { s.labels[l] = true }
 
 func (s *sim) add(st step) *step {
+	st.F = s.tag
 	s.script = append(s.script, st)
 	return &s.script[len(s.script)-1]
 }
@@ -243,7 +258,9 @@ func (s *sim) pendingNeeds() (anyRef, writeBit bool) {
 		case "write", "allocate":
 			anyRef, writeBit = true, true
 		case "setsize":
-			anyRef = true
+			if !probeUnreferenced {
+				anyRef = true
+			}
 		}
 	}
 	return
@@ -536,6 +553,12 @@ func (s *sim) resolvePending() {
 				s.failf("%s returned status=%d, want OK", name, m.st)
 			}
 		} else {
+			if s.dead && m.kind == "setsize" && probeUnreferenced {
+				if m.st == statOK {
+					s.failf("%s on a file whose last reference went away while it waited returned OK", name)
+				}
+				continue
+			}
 			if s.dead {
 				s.failf("harness bug: %s pending on a dead file", name)
 			}
@@ -551,7 +574,7 @@ func (s *sim) resolvePending() {
 	if len(live) == 0 {
 		return
 	}
-	actual, _, _ := s.pool.file.snapshot()
+	actual, _, _ := s.pf.snapshot()
 	matched := false
 	for _, perm := range permutations(len(live)) {
 		c := s.content
@@ -604,7 +627,7 @@ func (s *sim) check() {
 	if int(refs) != s.leafRefs() || int(writers) != s.openW || int(frozen) != s.frozen {
 		s.failf("file counters refs=%d writers=%d frozen=%d; model says refs=%d (links=%d R=%d W=%d frozen=%d) writers=%d frozen=%d", refs, writers, frozen, s.leafRefs(), s.links, s.openR, s.openW, s.frozen, s.openW, s.frozen)
 	}
-	data, closed, uac := s.pool.file.snapshot()
+	data, closed, uac := s.pf.snapshot()
 	if len(uac) > 0 {
 		s.failf("pool file used after Close: %v", uac)
 	}
@@ -615,8 +638,10 @@ func (s *sim) check() {
 	if closed != wantClosed {
 		s.failf("pool file Close() count is %d, model reference count is %d (links=%d R=%d W=%d frozen=%d) so it must be %d", closed, s.count(), s.links, s.openR, s.openW, s.frozen, wantClosed)
 	}
-	if rel := int(s.na.released.Load()); rel != wantClosed {
-		s.failf("named attributes released %d times, want %d", rel, wantClosed)
+	if s.na != nil {
+		if rel := int(s.na.released.Load()); rel != wantClosed {
+			s.failf("named attributes released %d times, want %d", rel, wantClosed)
+		}
 	}
 	if !s.dead {
 		if !bytes.Equal(data, s.content) {
@@ -710,7 +735,7 @@ func (s *sim) issue(m *mutator, fault string, faultK int) {
 	}
 	s.add(step{Op: m.kind, ID: m.id, Off: m.off, N: m.size, S: arg + faultTag(fault, faultK)})
 	if fault != "" {
-		s.pool.file.arm(fault, faultK)
+		s.pf.arm(fault, faultK)
 	}
 	ctx := context.Background()
 	m.call = s.spawn(func() {
@@ -737,7 +762,7 @@ func (s *sim) issue(m *mutator, fault string, faultK int) {
 	synctest.Wait()
 	consumed := 0
 	if fault != "" {
-		consumed = s.pool.file.disarm()
+		consumed = s.pf.disarm()
 	}
 	name := fmt.Sprintf("%s#%d", m.kind, m.id)
 	s.checkPanic(name, m.call)
@@ -824,7 +849,7 @@ func (s *sim) doClose(mask virtual.ShareMask) {
 func (s *sim) doLink() {
 	s.add(step{Op: "link"})
 	var st virtual.Status
-	s.sync("link", func() { st = s.leaf.Link() })
+	s.sync("link", func() { st = s.leaf.(virtual.LinkableLeaf).Link() })
 	wantOK := !s.dead
 	if s.wrap != "none" {
 		wantOK = s.links > 0
@@ -849,13 +874,23 @@ func (s *sim) doLink() {
 
 func (s *sim) doUnlink() {
 	s.add(step{Op: "unlink"})
-	s.sync("unlink", func() { s.leaf.Unlink() })
+	s.sync("unlink", func() { s.leaf.(virtual.LinkableLeaf).Unlink() })
 	s.links--
 	s.dropped("link")
 	s.advance()
 }
 
 func (s *sim) doUpload(plan casPlan, preClosed bool, fnIdx int, fault bool) *holder {
+	return s.doUploadVia(plan, preClosed, fnIdx, fault, func(h *holder) {
+		if !s.leaf.VirtualApply(h.up) {
+			panic("VirtualApply(ApplyUploadFile) not handled")
+		}
+	})
+}
+
+// doUploadVia starts an upload through start, which has to fill in
+// h.up.Digest and h.up.Err.
+func (s *sim) doUploadVia(plan casPlan, preClosed bool, fnIdx int, fault bool, start func(h *holder)) *holder {
 	h := &holder{id: s.nextID, kind: "upload", plan: plan, fnIdx: fnIdx, delay: make(chan struct{}), cas: newFakeCAS(plan)}
 	s.nextID++
 	if preClosed {
@@ -865,7 +900,7 @@ func (s *sim) doUpload(plan casPlan, preClosed bool, fnIdx int, fault bool) *hol
 	tag := fmt.Sprintf("park=%s fail=%v delayClosed=%v fn=%d", plan.Park, plan.Fail, preClosed, fnIdx)
 	if fault {
 		tag += " !read"
-		s.pool.file.arm("read", 0)
+		s.pf.arm("read", 0)
 	}
 	s.add(step{Op: "upload", ID: h.id, S: tag})
 	h.up = &virtual.ApplyUploadFile{
@@ -874,14 +909,10 @@ func (s *sim) doUpload(plan casPlan, preClosed bool, fnIdx int, fault bool) *hol
 		DigestFunction:            s.fns[fnIdx],
 		WritableFileUploadDelay:   h.delay,
 	}
-	h.call = s.spawn(func() {
-		if !s.leaf.VirtualApply(h.up) {
-			panic("VirtualApply(ApplyUploadFile) not handled")
-		}
-	})
+	h.call = s.spawn(func() { start(h) })
 	synctest.Wait()
 	if fault {
-		h.faultHit = s.pool.file.disarm() > 0
+		h.faultHit = s.pf.disarm() > 0
 	}
 	s.holders = append(s.holders, h)
 	s.advance()
@@ -942,13 +973,13 @@ func (s *sim) doRelease(h *holder, fault bool) {
 	st := step{Op: "release", ID: h.id}
 	if fault {
 		st.S = "!read"
-		s.pool.file.arm("read", 0)
+		s.pf.arm("read", 0)
 	}
 	s.add(st)
 	close(h.cas.release)
 	synctest.Wait()
 	if fault {
-		if s.pool.file.disarm() > 0 {
+		if s.pf.disarm() > 0 {
 			h.faultHit = true
 		}
 	}
@@ -967,7 +998,7 @@ func (s *sim) doFrozenRead(h *holder, off, n int, fault bool) {
 	st := step{Op: "frozenread", ID: h.id, Off: off, N: n}
 	if fault {
 		st.S = "!read"
-		s.pool.file.arm("read", 0)
+		s.pf.arm("read", 0)
 	}
 	s.add(st)
 	buf := make([]byte, n)
@@ -981,7 +1012,7 @@ func (s *sim) doFrozenRead(h *holder, off, n int, fault bool) {
 	})
 	consumed := 0
 	if fault {
-		consumed = s.pool.file.disarm()
+		consumed = s.pf.disarm()
 	}
 	if lerr != nil || l != int64(len(h.snapshot)) {
 		s.failf("frozen#%d Len() = %d, %v; content at the freeze instant has %d bytes", h.id, l, lerr, len(h.snapshot))
@@ -1027,7 +1058,7 @@ func (s *sim) doRead(off, n int, fault bool) {
 	st := step{Op: "read", Off: off, N: n}
 	if fault {
 		st.S = "!read"
-		s.pool.file.arm("read", 0)
+		s.pf.arm("read", 0)
 	}
 	s.add(st)
 	buf := make([]byte, n)
@@ -1037,7 +1068,7 @@ func (s *sim) doRead(off, n int, fault bool) {
 	s.sync("read", func() { got, eof, vs = s.leaf.VirtualRead(context.Background(), buf, uint64(off)) })
 	consumed := 0
 	if fault {
-		consumed = s.pool.file.disarm()
+		consumed = s.pf.disarm()
 	}
 	if consumed > 0 {
 		if vs != virtual.StatusErrIO {
@@ -1113,7 +1144,7 @@ func (s *sim) doStat(fnIdx int, fault bool) {
 	st := step{Op: "stat", N: fnIdx}
 	if fault {
 		st.S = "!read"
-		s.pool.file.arm("read", 0)
+		s.pf.arm("read", 0)
 	}
 	s.add(st)
 	fn := s.fns[fnIdx]
@@ -1125,7 +1156,7 @@ func (s *sim) doStat(fnIdx int, fault bool) {
 	})
 	consumed := 0
 	if fault {
-		consumed = s.pool.file.disarm()
+		consumed = s.pf.disarm()
 	}
 	switch {
 	case s.dead:
@@ -1348,6 +1379,26 @@ func (s *sim) actions() map[string]func(*rapid.T) {
 			}
 			s.issue(m, fault, 0)
 		},
+		// Opt-in probe (VERIF_C16_UNREFERENCED_SETSIZE=1), see FINDINGS.md:
+		// set-size on a file whose last reference is gone. Not part of
+		// the default generator because no documentation promises a
+		// result for it.
+		"setsize_unreferenced": func(rt *rapid.T) {
+			if !s.dead || !probeUnreferenced {
+				rt.Skip()
+			}
+			size := rapid.IntRange(0, maxSize).Draw(rt, "size")
+			s.add(step{Op: "setsize_unreferenced", N: size})
+			var in, out virtual.Attributes
+			in.SetSizeBytes(uint64(size))
+			var st virtual.Status
+			s.sync("set-size on a file without references", func() {
+				st = s.leaf.VirtualSetAttributes(context.Background(), &in, virtual.AttributesMaskSizeBytes, &out)
+			})
+			if st == statOK {
+				s.failf("set-size on a file without references returned OK")
+			}
+		},
 		"chmod": func(rt *rapid.T) {
 			if s.dead || s.realRefs() == 0 {
 				rt.Skip()
@@ -1497,23 +1548,26 @@ func (s *sim) drain(rt *rapid.T) {
 	s.check()
 }
 
-func newSim(rt *rapid.T, rec *simkit.Recorder) *sim {
-	s := &sim{rt: rt, rec: rec, labels: map[string]bool{}}
-	s.fns = []digest.Function{
+func newShared(rt *rapid.T, rec *simkit.Recorder) *shared {
+	return &shared{rt: rt, rec: rec, labels: map[string]bool{}, fns: []digest.Function{
 		digest.MustNewFunction("main", remoteexecution.DigestFunction_SHA256),
 		digest.MustNewFunction("other", remoteexecution.DigestFunction_SHA256),
 		digest.MustNewFunction("main", remoteexecution.DigestFunction_MD5),
-	}
+	}}
+}
+
+func newSim(rt *rapid.T, rec *simkit.Recorder) *sim {
+	s := &sim{shared: newShared(rt, rec)}
 	s.wrap = rapid.SampledFrom([]string{"none", "fuse", "nfs"}).Draw(rt, "wrap")
 	size := rapid.OneOf(rapid.Just(0), rapid.IntRange(0, 8)).Draw(rt, "initialSize")
 	share := rapid.SampledFrom([]virtual.ShareMask{0, shareRead, shareWrite, shareRW, shareWrite}).Draw(rt, "initialShare")
 	exec := rapid.Bool().Draw(rt, "executable")
-	s.pool = &fakePool{}
+	fp := &fakePool{}
 	s.na = &fakeNamedAttributes{}
 	s.el = &fakeErrorLogger{}
 	// Same composition as virtualBuildDirectory.InstallHooks: the
 	// pool-backed allocator behind NewHandleAllocatingFileAllocator.
-	fa := virtual.NewPoolBackedFileAllocator(s.pool, s.el, func(requested virtual.AttributesMask, attributes *virtual.Attributes) {}, &fakeNamedAttributesFactory{na: s.na})
+	fa := virtual.NewPoolBackedFileAllocator(fp, s.el, func(requested virtual.AttributesMask, attributes *virtual.Attributes) {}, &fakeNamedAttributesFactory{na: s.na})
 	switch s.wrap {
 	case "fuse":
 		fa = virtual.NewHandleAllocatingFileAllocator(fa, virtual.NewFUSEHandleAllocator(&counterGenerator{}))
@@ -1526,6 +1580,7 @@ func newSim(rt *rapid.T, rec *simkit.Recorder) *sim {
 		s.failf("NewFile: %v", err)
 	}
 	s.leaf = leaf
+	s.pf = fp.files[0]
 	s.links = 1
 	s.content = make([]byte, size)
 	s.acquire(share)
